@@ -14,7 +14,11 @@ RULE = (
     "fault plans from C09 for programs with try/with. Oracle: the text hy2py prints (hy.cmdline.hy2py_worker, cross-checked against "
     "ast.unparse of hy_compile's module) must compile() as Python, and executing it must give the same result value, effect log "
     "(exactly, same order) and escaping exception as executing the compiled AST. Non-trivial = the program has a statement-producing "
-    "form in an expression slot and >= 1 of {keyword-named identifier, lambda, walrus, negative constant, non-ASCII name}; distinct by source"
+    "form in an expression slot and >= 1 of {keyword-named identifier, lambda, walrus, negative constant, non-ASCII name}; distinct by source. "
+    "Second leg: the programs of the other properties' generators - match forms with subjects (C08), scoping programs with let/"
+    "nonlocal/global/classes/comprehensions (C06/C07), defn signatures with calls (C05), operator forms over the C03 value pool - "
+    "compiled once, executed from the AST and from the printed text in the same environment; observation (result, log, module "
+    "variables) and exception type must agree"
 )
 ASSUMPTIONS = ["CPython's compile() and exec define 'parses as Python' and the behaviour of both artefacts"]
 
@@ -107,9 +111,119 @@ def names_ok(prog, names):
             and all(isinstance(v, str) and v in EXOTIC and v not in ns and v not in RESERVED for v in vals))
 
 
+# ---------------------------------------------------------------- programs of the other generators (C03 C05 C06 C07 C08)
+def foreign_source(case):
+    """-> (hy source, namespace factory(log) -> dict, observe(ns) -> text) for a case of another property's generator"""
+    kind, c = case["foreign"], case["case"]
+    if kind == "c08":
+        from vf.props import c08
+
+        hsrc, _psrc, _names = c08.render(c)
+        subject = c["subject"]
+
+        def env(log):
+            ns = c08.base_ns(log)
+            ns["S"] = c08.subject_value(subject)
+            return ns
+
+        def observe(ns):
+            out = ns.get("OUT")
+            return repr(out[0]) if isinstance(out, list) and out else repr(out)
+
+        return hsrc, env, observe
+    if kind == "scopes":
+        from vf import scopes as S
+
+        if S.comp_conflict(c) or S.reference(c)[0] != "ok":
+            return None
+        src = S.render(c)
+
+        def env(log):
+            def REC(i, v):
+                log.append([i, v if isinstance(v, (int, list)) else "<fn>"])
+                return v
+
+            return dict(REC=REC)
+
+        return src, env, lambda ns: repr({n: ns.get(n, "<absent>") for n in S.POOL + [S.GHOST]})
+    if kind == "c05":
+        from vf.props import c05
+
+        lines = [c05.hy_def(c["sig"], "defn").rsplit("\n", 1)[0]]
+        for i, call in enumerate(c["calls"]):
+            lines.append('(setv R%d (try (repr (sorted (.items %s))) (except [TypeError] "TypeError")))' % (i, c05.hy_call(call)))
+        n = len(c["calls"])
+        return "\n".join(lines), (lambda log: {}), (lambda ns: repr([ns.get("R%d" % i) for i in range(n)]))
+    if kind == "c03":
+        from vf.props import c03
+
+        op, vals = c["op"], c["vals"]
+        if op not in c03.OPS or not c03.tame(op, vals) or not (c03.OPS[op][1] <= len(vals) <= c03.OPS[op][2]):
+            return None
+        src = "(setv OUT (try (%s %s) (except [e Exception] (+ \"raise:\" (. (type e) __name__)))))" % (op, " ".join("v%d" % i for i in range(len(vals))))
+        return src, (lambda log: {"v%d" % i: v for i, v in enumerate(c03.values(vals))}), (lambda ns: c03.canon(ns.get("OUT")))
+    return None
+
+
+def check_foreign(case):
+    import ast
+    import hy
+    import hy.compiler
+
+    try:
+        fs = foreign_source(case)
+    except (KeyError, IndexError, TypeError, ValueError):
+        return None
+    if fs is None:
+        return None
+    src, env, observe = fs
+    kind = case["foreign"]
+    mod = types.ModuleType("vfprog14f")
+    try:
+        tree = hy.compiler.hy_compile(hy.read_many(src), mod, filename="<c14>", source=src)
+        code_ast = compile(tree, "<ast>", "exec")
+    except SyntaxError:
+        NOTE["skipped"] = "skipped:not-accepted-by-the-compiler"
+        return None
+    text = ast.unparse(tree)
+    try:
+        printed = hy2py_text(src)
+    except Exception as e:  # noqa
+        return ("hy2py-raised:" + type(e).__name__, dict(source=src, error=str(e)[:200]))
+    if printed.rstrip("\n") != text.rstrip("\n"):
+        return ("hy2py-differs-from-unparse", dict(source=src, hy2py=printed[:500], unparse=text[:500]))
+    try:
+        code_text = compile(printed, "<hy2py>", "exec")
+    except SyntaxError as e:
+        return ("hy2py-output-not-python:" + kind, dict(source=src, python=printed[:1200], error=str(e)[:200]))
+
+    def run(code):
+        log = []
+        ns = dict(mod.__dict__)
+        ns.update(env(log))
+        out = dict(exc=None, obs=None)
+        try:
+            exec(code, ns)
+            out["obs"] = observe(ns)
+        except RecursionError:
+            raise
+        except Exception as x:  # noqa
+            out["exc"] = type(x).__name__
+        out["log"] = log
+        return out
+
+    a, t = run(code_ast), run(code_text)
+    if a != t:
+        return ("behaviour-differs:%s:%s" % (kind, "exception" if a["exc"] != t["exc"] else "value" if a["obs"] != t["obs"] else "log"),
+                dict(source=src, python=printed[:1200], from_ast=repr(a)[:600], from_text=repr(t)[:600]))
+    return None
+
+
 def check_case(case):
     import ast
 
+    if "foreign" in case:
+        return check_foreign(case)
     prog = case["prog"]
     if not P.valid(prog):
         return None
@@ -217,6 +331,37 @@ def shard(ctx):
             ctx.fail(case, r[0], r[1])
 
     ctx.hyp(strat, one, ctx.per_shard(1500, 100000), "programs")
+
+    # programs of the other properties' generators: match (C08), scoping programs (C06/C07), signatures and calls (C05), operator forms (C03)
+    from vf import scopes as S
+    from vf.props import c03, c05, c08
+
+    c03_case = st.sampled_from(sorted(c03.OPS)).flatmap(lambda op: st.lists(st.sampled_from(c03.pool_for(op)), min_size=c03.OPS[op][1], max_size=c03.OPS[op][2]).map(lambda vs: dict(op=op, vals=vs)))
+    foreign = st.one_of(
+        c08.strategies().map(lambda c: dict(foreign="c08", case=c)),
+        S.program_strategy("let").map(lambda c: dict(foreign="scopes", case=c)),
+        S.program_strategy("decl").map(lambda c: dict(foreign="scopes", case=c)),
+        c05.strategies()[0].map(lambda c: dict(foreign="c05", case=c)),
+        c03_case.map(lambda c: dict(foreign="c03", case=c)),
+    )
+
+    def one_foreign(case):
+        NOTE.clear()
+        r = check_case(case)
+        fs = None
+        try:
+            fs = foreign_source(case)
+        except Exception:  # noqa
+            pass
+        src = fs[0] if fs else "(not judged)"
+        if NOTE.get("skipped") or fs is None:
+            ctx.count(NOTE.get("skipped") or "skipped:foreign-case-not-a-program")
+            return
+        ctx.case(key=src, nontrivial=True, cls=["foreign:" + case["foreign"]], sample=src.replace("\n", " ")[:300])
+        if r is not None:
+            ctx.fail(case, r[0], r[1])
+
+    ctx.hyp(foreign, one_foreign, ctx.per_shard(2500, 150000), "foreign")
 
 
 MATCHERS = {}
